@@ -179,7 +179,7 @@ def run(ctx: core.Ctx):
                 'malformed stream; scalar arithmetic around scalar arithmetic / mappings inside atomic composites; a quarter of '
                 'the random cases and a dedicated family construct their MappingPTs from caller-owned mapping dicts that '
                 'are re-used for the next construction and overwritten afterwards (the model sees the template as '
-                'written); integer channel ids; the helper RepetitionPT.with_repetition against its explicit nesting. Windows are '
+                'written); integer channel ids; 30% of the random cases are instantiated with a to_single_waveform set; the helper RepetitionPT.with_repetition against its explicit nesting. Windows are '
                 'compared as multisets of exact rationals. Non-trivial = a program is produced from a tree with more '
                 'than one node')
     ctx.assumptions = [
